@@ -43,6 +43,8 @@ THEOREMS = [
     "C16_nested",
     "C16_nested_table",
     "C16_after_edit",
+    "C16_rows_hold_own_cells",
+    "C16_labels_witness",
 ]
 RULE = (
     "real for-nodes made by for_node / Cls.for_node / node.iter / node.zip / as a workflow child fed through data "
@@ -82,6 +84,8 @@ BODIES = {
     # a MACRO as body (two chained function nodes computing what B3 computes) and a LOOP as body (for in for)
     "MB": {"inputs": ["a", "b", "c"], "defaults": {}, "outputs": ["p", "q"], "sym": {"p": "p", "q": "q"}},
     "NB": {"inputs": ["a", "b", "c"], "defaults": {}, "outputs": ["df"], "sym": {"df": "@inner"}},
+    "BK": {"inputs": ["freq4", "k_59", "unit"], "defaults": {"unit": "u"}, "outputs": ["p", "q"],
+           "sym": {"p": "p", "q": "q"}},
     "B12": {"inputs": [f"x{i}" for i in range(12)], "defaults": {"x11": "e"}, "outputs": ["o", "o2"],
             "sym": {"o": "w", "o2": "v"}},
 }
@@ -297,7 +301,7 @@ def _colmaps(body, iter_on, zip_on):
         res = [None, {"p": "P"}, {"p": "q", "q": "p"}, {"p": "x", "q": "y"}]
         if bc:
             res.append({"q": bc[-1]})
-    elif body == "MB":
+    elif body in ("MB", "BK"):
         res = [None, {"p": "P"}, {"p": "q", "q": "p"}]
     elif body == "NB":
         res = [None, {"df": "inner"}]
@@ -759,6 +763,32 @@ def gen_cases(rng, tier):
             case[tgt] = case[tgt] + [rng.choice(looped)]
         yield case
 
+    # 5l. aliasing of looped cells: a large population of (input label, index) cells, judged on real nodes
+    yield {"kind": "labels", "seed": rng.randrange(10 ** 6), "labels": ["freq4", "k_59", "a", "b", "c", "d", "x10", "x2"],
+           "n_labels": 400 if quick else 1500, "n_index": 500 if quick else 1000}
+    # a big zipped loop over the two labels of the past failure, and a big product (hundreds of rows, both forms)
+    for form_df in (True, False):
+        yield {"kind": "for", "body": "BK", "iter": [], "zip": ["freq4", "k_59"], "df": form_df, "colmap": None,
+               "use_cache": True, "entry": "for_node", "executor": False,
+               "init": {"freq4": [f"f{j}" for j in range(24)], "k_59": [f"k{j}" for j in range(24)], "unit": "Hz"},
+               "runs": [{"set": {}, "how": "call"}]}
+    yield {"kind": "for", "body": "BK", "iter": ["freq4", "k_59"], "zip": [], "df": rng.random() < 0.5, "colmap": None,
+           "use_cache": True, "entry": "for_node", "executor": False,
+           "init": {"freq4": [f"f{j}" for j in range(15)], "k_59": [f"k{j}" for j in range(14)], "unit": "Hz"},
+           "runs": [{"set": {}, "how": "call"}]}
+
+    # 5m. executor-run bodies whose completion callbacks run on their own thread in two halves (execfine): every
+    #     sampled interleaving of the halves with the loop's main thread must give the reference table, also on a
+    #     re-run with other lengths
+    for _ in range(50 if quick else 600):
+        layout = rng.choice([(["a"], []), (["a"], ["b"]), ([], ["a", "b"]), (["a", "b"], [])])
+        l0 = {k: rng.randint(1, 3) for k in layout[0] + layout[1]}
+        l1 = {k: rng.randint(1, 3) for k in layout[0] + layout[1]}
+        init = {k: ([f"{k}{j}" for j in range(l0[k])] if k in l0 else k.upper()) for k in "abc"}
+        yield {"kind": "fine", "iter": layout[0], "zip": layout[1], "df": rng.random() < 0.5, "init": init,
+               "runs": [{"set": {}}, {"set": {k: [f"{k}n{j}" for j in range(l1[k])] for k in l1}}],
+               "choices": [rng.randrange(0, 6) for _ in range(40)]}
+
     # 6. dictionary_to_index_maps directly
     keys = ["a", "b", "c", "x"]
     for _ in range(400 if quick else 6000):
@@ -885,6 +915,14 @@ def corpus():
                "init": {"a": ["1", "2"], "b": ["10", "20"], "c": "kg"},
                "runs": [{"set": {}, "how": "call", "edit": {"body": 2, "input": "c", "value": "lb"}},
                         {"set": {}, "how": "call"}, {"set": {"a": ["3"], "c": "t"}, "how": "call"}]}
+    # past failure (seeded C16-10): 32-bit label checksum, freq4[9] / k_59[10] shared a get-item node
+    yield {"kind": "for", "body": "BK", "iter": [], "zip": ["freq4", "k_59"], "df": True, "colmap": None,
+           "use_cache": True, "entry": "for_node", "executor": False,
+           "init": {"freq4": [str(100 + j) for j in range(12)], "k_59": [str(500 + j) for j in range(12)], "unit": "Hz"},
+           "runs": [{"set": {}, "how": "call"}]}
+    # past failure (seeded C16-11 = C01-6): the last body's callback parks between its two registrations
+    yield {"kind": "fine", "iter": ["a"], "zip": [], "df": True, "init": {"a": ["a0", "a1"], "b": "B", "c": "C"},
+           "runs": [{"set": {}}, {"set": {"a": ["x", "y", "z"]}}], "choices": [1, 0, 0, 0, 2, 1, 0, 0, 0, 0, 0, 0]}
     # pickling: at rest, through a file, mid-run (history continues on the copy), after a failed run
     yield {"kind": "for", "body": "B4", "iter": ["a"], "zip": ["b"], "df": True, "colmap": {"o": "O"}, "use_cache": True,
            "entry": "for_node", "executor": True, "init": {"a": ["a0", "a1"], "b": ["b0", "b1", "b2"], "c": "C"},
@@ -1269,11 +1307,128 @@ def _run_maps(case):
             "stats": {"maps:" + res: 1}}
 
 
+def _run_labels(case):
+    """every looped cell is read through an injected get-item node that is LOOKED UP BY LABEL: two cells whose
+    labels coincide share a node. Search a large population of (input label, index) cells for such a pair — guided,
+    where the tree has it, by the library's own label function (a private helper: only used to find candidates) —
+    and JUDGE by public behaviour: in a workflow, `wf.<l1>.outputs.user_input[i1]` and `wf.<l2>.outputs.user_input[i2]`
+    must be different nodes"""
+    import random
+
+    from pyiron_workflow import Workflow
+
+    rng = random.Random(case["seed"])
+    labels = list(case["labels"])
+    while len(labels) < case["n_labels"]:
+        labels.append(rng.choice("abcdefghijklmnopqrstuvwxyz") + "".join(
+            rng.choice("abcdefghijklmnopqrstuvwxyz0123456789_") for _ in range(rng.randint(1, 5))))
+    labels = sorted(set(labels))
+    wf = Workflow("c16labels", autoload=None)
+    probe = Workflow.create.standard.UserInput([0], label="probe__src")
+    wf.add_child(probe)
+    chan = probe.outputs.user_input
+    fn = getattr(chan, "_get_injection_label", None)
+    candidates, n_keys = [], 0
+    if callable(fn):
+        from pyiron_workflow.nodes.standard import GetItem
+
+        seen = {}
+        old_label = probe.label
+        try:
+            for lab in labels:
+                probe._label = lab  # (search only) the label function reads the channel's scoped label
+                for i in range(case["n_index"]):
+                    try:
+                        key = fn(GetItem, i)
+                    except Exception:  # noqa: BLE001
+                        key = None
+                    if key is None:
+                        continue
+                    n_keys += 1
+                    if key in seen and seen[key] != (lab, i):
+                        candidates.append((seen[key], (lab, i)))
+                    else:
+                        seen[key] = (lab, i)
+                    if len(candidates) >= 3:
+                        break
+                if len(candidates) >= 3:
+                    break
+        except Exception:  # noqa: BLE001
+            candidates = []
+        finally:
+            try:
+                probe._label = old_label
+            except Exception:  # noqa: BLE001
+                pass
+    # public judgement (also of a fixed sample when no search was possible)
+    pairs = candidates or [((labels[j], j), (labels[j + 1], j + 1)) for j in range(0, min(40, len(labels) - 1), 2)]
+    shared = []
+    for (l1, i1), (l2, i2) in pairs:
+        w = Workflow("c16lab2", autoload=None)
+        n1 = Workflow.create.standard.UserInput(list(range(max(i1, i2) + 1)), label=l1)
+        w.add_child(n1)
+        if l2 == l1:
+            n2 = n1
+        else:
+            n2 = Workflow.create.standard.UserInput(list(range(max(i1, i2) + 1)), label=l2)
+            w.add_child(n2)
+        g1 = n1.outputs.user_input[i1]
+        g2 = n2.outputs.user_input[i2]
+        if g1 is g2:
+            shared.append([[l1, i1], [l2, i2]])
+    return {"obs": [], "shared": shared, "n_keys": n_keys, "searched": callable(fn),
+            "stats": {"labels:keys": n_keys, "labels:searched:" + str(callable(fn)): 1}}
+
+
+def _run_fine(case):
+    """body nodes on a shared-memory executor whose done-callbacks run on their OWN THREAD in two halves
+    (harness/pwh/execfine.py, as C01/C10 use it): whichever half runs when, the loop must return the reference
+    table of its inputs — 'every completion order of executor-run body nodes' at the granularity of the callback"""
+    from pyiron_workflow.nodes.for_loop import for_node
+
+    from . import nodes_c16
+    from .execfine import FineInstrument, FineScheduler
+    from .execsim import CtlExecutor, Stuck
+
+    nodes_c16.reset()
+    sched = FineScheduler(list(case["choices"]))
+    f = for_node(nodes_c16.B3, iter_on=tuple(case["iter"]), zip_on=tuple(case["zip"]),
+                 output_as_dataframe=case["df"], **{k: (list(v) if isinstance(v, list) else v)
+                                                    for k, v in case["init"].items()})
+    f.body_node_executor = CtlExecutor(sched, "ctl")
+    runs_out = []
+    for run in case["runs"]:
+        res, err = "ok", ""
+        try:
+            with FineInstrument(sched):
+                try:
+                    f.run(**{k: (list(v) if isinstance(v, list) else v) for k, v in run["set"].items()})
+                finally:
+                    at_return = _outs_view(case["df"], (lambda lab: f.outputs.df.value) if case["df"] else
+                                           (lambda _l: (list(f.outputs.labels), f.outputs.to_value_dict())))[1]
+                    late = sched.release_all()
+        except Stuck as e:
+            res, err = "stuck", str(e)[:100]
+            at_return, late = {"form": "df" if case["df"] else "lists", "table": None, "columns": {}}, 0
+        except Exception as e:  # noqa: BLE001
+            res, err = "err " + type(e).__name__, str(e)[:200]
+            f.failed = False
+            f.running = False
+        runs_out.append({"res": res, "err": err, "outs": at_return, "late": late, "running": bool(f.running),
+                         "tokens": list(sched.tokens)})
+        sched.tokens.clear()
+    return {"obs": [], "fine_runs": runs_out, "stats": {"fine_cases": 1}}
+
+
 def run_impl(case):
     if case["kind"] == "for":
         return _run_for(case)
     if case["kind"] == "maps":
         return _run_maps(case)
+    if case["kind"] == "labels":
+        return _run_labels(case)
+    if case["kind"] == "fine":
+        return _run_fine(case)
     # malformed: nothing to run on the implementation; the driver has to refuse every line
     return {"obs": list(case["expect"]), "stats": {"malformed": 1}}
 
@@ -1286,6 +1441,10 @@ def nontrivial(case, r):
             for x in r.get("runs", []))
     if case["kind"] == "maps":
         return bool(r.get("maps")) and len(r["maps"]) >= 2
+    if case["kind"] == "labels":
+        return r.get("n_keys", 0) > 1000 or not r.get("searched")
+    if case["kind"] == "fine":
+        return any(x["res"] == "ok" for x in r.get("fine_runs", []))
     return False
 
 
@@ -1299,6 +1458,8 @@ def _tok(v):
 def model_input(case, impl=None):
     if case["kind"] == "malformed":
         return list(case["lines"])
+    if case["kind"] in ("labels", "fine"):
+        return []
     if case["kind"] == "maps":
         lines = [f"data {k} {v}" for k, v in case["data"].items()]
 
@@ -1410,6 +1571,8 @@ def corr_view(case, impl):
     driver has no term constructor for an inner table)"""
     if case.get("kind") == "for" and case.get("body") == "NB":
         return None
+    if case.get("kind") in ("labels", "fine"):
+        return None
     return impl["obs"]
 
 
@@ -1434,6 +1597,32 @@ def oracle(case, r):
         return fails
     if case["kind"] == "maps":
         return _oracle_maps(case, r)
+    if case["kind"] == "labels":
+        # 'each row holds THOSE input values': every looped cell needs its own item-access node
+        return [{"clause": "cells-share-a-node", "detail": f"{a} and {b} are read through the same get-item node",
+                 "signature": {"clause": "cells-share-a-node", "trigger": "labels"}} for a, b in r.get("shared", [])][:2]
+    if case["kind"] == "fine":
+        vals = dict(case["init"])
+        for k, (run, ro) in enumerate(zip(case["runs"], r["fine_runs"])):
+            vals.update(run["set"])
+            fcase = dict(case, body="B3", colmap=None)
+            ref = _reference(fcase, dict(vals))
+            outs = ro["outs"]
+            if outs.get("form") == "df":
+                got = outs.get("table")
+            else:
+                cols = outs.get("columns") or {}
+                got = None
+                if cols and all(v is not None for v in cols.values()) and len({len(v) for v in cols.values()}) == 1:
+                    n = len(next(iter(cols.values())))
+                    got = [{lab: cols[lab][i] for lab in cols} for i in range(n)]
+            if ro["res"] != "ok" or got != ref:
+                fails.append(_f("no-table" if got is None else "row-content", case, k,
+                                f"callback halves {ro['tokens']}: {ro['res']} {ro['err']} returned "
+                                f"{'NOT_DATA' if got is None else str(len(got)) + ' rows'}, reference has {len(ref)} rows",
+                                trigger="fine-interleaving"))
+                break
+        return fails
     spec = BODIES[case["body"]]
     looped = case["iter"] + case["zip"]
     if r.get("created") is False:
